@@ -67,6 +67,19 @@ def verify_root(trusted_current_root_metadata, untrusted_new_root_metadata):
             '"root".'
         )
 
+    # Root metadata must say how the next version of root is to be verified.
+    # (checkformat_delegating_metadata does not require any particular
+    # delegation to be present.)
+    for root_metadata in (
+        trusted_current_root_metadata,
+        untrusted_new_root_metadata,
+    ):
+        if "root" not in root_metadata["signed"]["delegations"]:
+            raise ValueError(
+                'Expected root metadata to include a delegation to "root", '
+                "listing the keys and threshold for verifying root metadata."
+            )
+
     # Extract rules for root from old, trusted version of root.
     root_expectations = trusted_current_root_metadata["signed"]["delegations"]["root"]
     expected_threshold = root_expectations["threshold"]
